@@ -62,9 +62,9 @@ def gen_case(rng, length, ci):
         sr_set[0] = sr
     use_elem = rng.random() < 0.25
     # a crowded base: ten and more segments sharing one base name, so that two-digit suffixes get renumbered
-    crowd = rng.choice(BASES) if rng.random() < 0.12 else None
+    crowd = rng.choice(BASES) if rng.random() < 0.15 else None
     if crowd:
-        length = max(length, 18)
+        length = max(length, 28)
     for _ in range(length):
         r = rng.choice(sorted(live))
         k = rng.random()
